@@ -18,7 +18,7 @@ CHECK = {
     "units": [
         {
             # the real runCommand path: the client is a real OS process (the test binary re-executed)
-            "name": "c10-osproc", "pkg": CC, "harness": ["connectconformance/osproc_test.go", "connectconformance/c10_test.go", "connectconformance/c05_test.go", "connectconformance/peersim_test.go", "connectconformance/c11_test.go", "connectconformance/fakeproc_test.go", "connectconformance/gateutil_test.go"],
+            "name": "c10-osproc", "pkg": CC, "overlap": True, "harness": ["connectconformance/osproc_test.go", "connectconformance/c10_test.go", "connectconformance/c05_test.go", "connectconformance/peersim_test.go", "connectconformance/c11_test.go", "connectconformance/fakeproc_test.go", "connectconformance/gateutil_test.go"],
             "test": "^TestVerifOSProcClient$",
             "shards": {"quick": 28, "thorough": 32},  # the runs mostly sleep (the runner's 5-20 s timeouts), so more shards than cores
             "budget_s": {"quick": 120, "thorough": 600},
